@@ -289,8 +289,10 @@ func (w *Walker) nodeRoutine(
 		// call the callback
 		cacheResult, err := w.walkCallback(ctx, node)
 		if err != nil {
-			if errors.Is(err, context.Canceled) {
-				// Cancelling externally or via failFast leaves target uncompleted
+			if errors.Is(err, context.Canceled) && ctx.Err() != nil {
+				// Cancelling externally or via failFast leaves target uncompleted.
+				// A cancellation error while the walk itself is not cancelled is a failure
+				// like any other: without a completion the dependants would wait forever.
 				return
 			}
 			// don't account for cache hits in errors
